@@ -259,6 +259,9 @@ class Check:
         """Exhaustive run must finish with no error and no action left uncovered (vacuity)."""
         if r.get("error") == "timeout" or r["rc"] == 124:
             self.tool_error("TLC timeout: " + what, r["out"])
+        if not r["ok"] and not r["invariant"] and not re.search(r"violated|Deadlock reached", r.get("error") or ""):
+            # TLC was killed, ran out of memory or could not evaluate the spec: that decides nothing about the property
+            self.tool_error("TLC did not finish: %s: rc=%s error=%s" % (what, r["rc"], r["error"]), r["out"][-3000:])
         if r["invariant"] or not r["ok"]:
             # a violation of the property on the specification itself
             p = self.path("tlc_counterexample_%s.txt" % re.sub(r"\W+", "_", what))
